@@ -553,7 +553,14 @@ class ObservableResource(Resource, metaclass=abc.ABCMeta):
                 # If block2 were to happen here, we'd store the full response
                 # here, and pick out block2:0.
 
-                is_last = servobs._late_deregister or not response.code.is_successful()
+                # The resource may have triggered again (possibly with
+                # is_last=True) while the response above was being rendered.
+                # That trigger is still pending then, and it is its
+                # notification -- produced from the state as of that trigger
+                # -- that concludes the observation, not this older one.
+                is_last = (
+                    servobs._late_deregister and not servobs._trigger.done()
+                ) or not response.code.is_successful()
                 if not is_last:
                     next_observation_number += 1
                     response.opt.observe = next_observation_number
